@@ -26,6 +26,8 @@ use std::panic::{catch_unwind, AssertUnwindSafe};
 use std::sync::atomic::{AtomicU64, Ordering};
 
 const FULL: [&str; 10] = ["a", "~", "$V1", "${V1}", "$V2", "${V2}", "$", "${}", "${V1", "$V1}"];
+/// separator shapes without '~' and '$': the text has to come back byte for byte
+const PLAIN: [&str; 4] = ["a", "/", ".", "é"];
 const SMALL: [&str; 5] = ["a", "~", "$V1", "${V2}", "$"];
 const HOMES: [Option<&str>; 4] = [None, Some(""), Some("/h"), Some("/h/x/")];
 const V1S: [Option<&str>; 5] = [None, Some(""), Some("v"), Some("a/b"), Some("/abs")];
@@ -42,6 +44,8 @@ struct Family {
     /// (component sizes, first index, number of token tuples)
     shapes: Vec<(Vec<u8>, u64, u64)>,
     n: u64,
+    /// raw family: every string of 1..=L tokens, no component structure and no optional leading '/'
+    raw: bool,
 }
 
 impl Family {
@@ -71,12 +75,23 @@ impl Family {
             shapes.push((v, off, cnt));
             off += cnt;
         }
-        Family { alpha, shapes, n: off * 2 }
+        Family { alpha, shapes, n: off * 2, raw: false }
+    }
+    /// every concatenation of 1..=max_len tokens (separators are tokens of the alphabet)
+    fn raw(alpha: &'static [&'static str], max_len: u32) -> Family {
+        let mut shapes = vec![];
+        let mut off = 0u64;
+        for l in 1..=max_len {
+            let cnt = (alpha.len() as u64).pow(l);
+            shapes.push((vec![l as u8], off, cnt));
+            off += cnt;
+        }
+        Family { alpha, shapes, n: off, raw: true }
     }
     fn get(&self, idx: u64, out: &mut String) {
         out.clear();
-        let lead = idx & 1 == 1;
-        let j = idx >> 1;
+        let lead = !self.raw && idx & 1 == 1;
+        let j = if self.raw { idx } else { idx >> 1 };
         let (sizes, off, _) = self.shapes.iter().rev().find(|(_, off, _)| *off <= j).expect("shape");
         let mut r = j - off;
         let k = self.alpha.len() as u64;
@@ -116,13 +131,14 @@ impl Space {
         let (full_max, small_max) = tier.pick((4, 7), (5, 9));
         let f1 = Family::new(&FULL, 0, full_max);
         let f2 = Family::new(&SMALL, full_max + 1, small_max);
+        let f3 = Family::raw(&PLAIN, tier.pick(6, 8));
         let digest_cap = Family::new(&FULL, 0, 4).n;
         let phase1 = Family::new(&FULL, 0, 2).n;
         let bounds = format!(
-            "templates: optional leading '/', <=3 components of 1..=3 tokens each; full 10-token alphabet {:?} with <= {} tokens in total ({} templates) plus reduced alphabet {:?} with {}..={} tokens in total ({} templates); environments: HOME {:?} x V1 {:?} x V2 {:?}",
-            FULL, full_max, f1.n, SMALL, full_max + 1, small_max, f2.n, HOMES, V1S, V2S
+            "templates: optional leading '/', <=3 components of 1..=3 tokens each; full 10-token alphabet {:?} with <= {} tokens in total ({} templates) plus reduced alphabet {:?} with {}..={} tokens in total ({} templates) plus every string of 1..={} tokens over {:?} ({} templates, returned-unchanged clause on repeated / trailing separators and dot components); environments: HOME {:?} x V1 {:?} x V2 {:?}",
+            FULL, full_max, f1.n, SMALL, full_max + 1, small_max, f2.n, tier.pick(6, 8), PLAIN, f3.n, HOMES, V1S, V2S
         );
-        Space { fams: vec![f1, f2], digest_cap, phase1, bounds }
+        Space { fams: vec![f1, f2, f3], digest_cap, phase1, bounds }
     }
     fn n(&self) -> u64 {
         self.fams.iter().map(|f| f.n).sum()
@@ -461,7 +477,8 @@ fn eval(t: &str, mem: &Memfs) -> Eval {
         for (name, r) in [("Memfs::abs", &mabs), ("Stdfs::abs", &sabs)] {
             if let R::Panic(m) = r {
                 f.push((format!("{} panic", name), format!("{}: {} panicked: {}", head(), name, m)));
-            } else if !matches!(got, R::Panic(_)) && r.is_ok() != got.is_ok() {
+            } else if !matches!(got, R::Panic(_)) && r.is_ok() != got.is_ok() && !(got.is_ok() && t.split('/').any(|c| c == "..")) {
+                // (a template with a ".." component may legitimately climb above the root in abs)
                 f.push((
                     format!("{} verdict differs from expand (expand={} abs={})", name, got.verdict(), r.verdict()),
                     format!("{}: sys::expand = {:?} but {} = {:?}", head(), got, name, r),
